@@ -2,6 +2,8 @@ package main
 
 import (
 	"fmt"
+	"go/scanner"
+	"go/token"
 	"os"
 	"path/filepath"
 	"strings"
@@ -115,12 +117,15 @@ func migrateFile(path string, dryRun bool) (int, error) {
 
 	original := string(content)
 	lines := strings.Split(original, "\n")
+	markerLines := legacyMarkerLines(content)
 	modified := false
 	count := 0
 
 	for i, line := range lines {
 		trimmed := strings.TrimLeft(line, " \t")
-		if strings.HasPrefix(trimmed, oldMarkerPrefix) {
+		// Only real line comments are markers: text that merely looks like one inside a raw string
+		// literal or a block comment must stay untouched.
+		if strings.HasPrefix(trimmed, oldMarkerPrefix) && markerLines[i+1] {
 			indent := line[:len(line)-len(trimmed)]
 			lines[i] = indent + newMarkerPrefix + strings.TrimPrefix(trimmed, oldMarkerPrefix)
 			modified = true
@@ -149,6 +154,32 @@ func migrateFile(path string, dryRun bool) (int, error) {
 	fmt.Printf("%s: migrated %d marker(s)\n", displayPath, count)
 
 	return count, nil
+}
+
+// legacyMarkerLines returns the (1-based) numbers of the lines on which a line comment in the legacy
+// marker format starts, as seen by the Go scanner.
+func legacyMarkerLines(src []byte) map[int]bool {
+	fset := token.NewFileSet()
+	file := fset.AddFile("", fset.Base(), len(src))
+
+	var s scanner.Scanner
+
+	s.Init(file, src, nil, scanner.ScanComments)
+
+	lines := make(map[int]bool)
+
+	for {
+		pos, tok, lit := s.Scan()
+		if tok == token.EOF {
+			break
+		}
+
+		if tok == token.COMMENT && strings.HasPrefix(lit, oldMarkerPrefix) {
+			lines[fset.Position(pos).Line] = true
+		}
+	}
+
+	return lines
 }
 
 func printUnifiedDiff(path, oldContent, newContent string) {
